@@ -82,6 +82,8 @@ struct HookState {
     unsigned long maxReads, maxReadsAfterFail;
     unsigned long allocBytes, allocCount, maxAllocBytes, maxSingleAlloc, largestAlloc;
     bool budgetOn;
+    unsigned long hardMult;   // 1: stop at the budget; >1: record the budget line, keep running up to hardMult x budget (a crash behind the budget stays visible)
+    bool softHit;
 };
 extern HookState g_hook;
 extern void (*g_hookOverride)(int, unsigned long, unsigned long);
